@@ -206,6 +206,12 @@ def edit_ssc(rng, sf, steps):
     return log
 
 
+def ssc_chart_has_notes(c):
+    """the chart's note data property (NOTES, or NOTES2 when only that alias is present) holds a string"""
+    nk = "NOTES2" if ("NOTES" not in c and "NOTES2" in c) else "NOTES"
+    return nk in c and isinstance(c[nk], str)
+
+
 def ssc_chart_ok(c):
     """exactly one of NOTES/NOTES2 with a string value (the domain of C02)"""
     has = [k for k in ("NOTES", "NOTES2") if k in c]
@@ -260,7 +266,11 @@ def rand_text(rng, ssc=None):
         if ssc:
             parts.append(param(pad(rng.choice(["NOTEDATA", "notedata"])), rng.choice([1, 1, 0])))
             for _ in range(rng.randrange(0, 5)): parts.append(param(rng.choice(SSC_CHART_KEYS + ["stepstype", "Meter"])))
-            if rng.random() < .9:
+            if rng.random() < .15:
+                # both spellings in one chart: NOTES is the note data, NOTES2 an ordinary property (either order)
+                both = [param("NOTES2", 1), param(rng.choice(["NOTES", "notes"]), 1)]
+                rng.shuffle(both); parts += both
+            elif rng.random() < .9:
                 parts.append(param(rng.choice(["NOTES", "NOTES", "notes", "NOTES2"]), 1))
             if rng.random() < .3: parts.append(param())
         else:
